@@ -42,6 +42,8 @@ type Opts struct {
 	EvalAll   bool   `json:"eval_all,omitempty"`
 	NullIn    bool   `json:"null_in,omitempty"`
 	NulSep    bool   `json:"nul_sep,omitempty"` // -0 / --nul-output
+	// SplitExp is the --split-exp name expression: results are written to the files it names instead of Outcome.Out
+	SplitExp string `json:"split_exp,omitempty"`
 	// Tweak sets format preferences (the --csv-*, --xml-*, --lua-*, --properties-* flags) after the defaults are in place.
 	Tweak func() `json:"-"`
 }
@@ -213,7 +215,16 @@ func runRaw(expr, input string, o Opts) Outcome {
 		return Outcome{Err: err.Error()}
 	}
 	out := new(bytes.Buffer)
-	printer := yqlib.NewPrinter(enc, yqlib.NewSinglePrinterWriter(out))
+	var pw yqlib.PrinterWriter = yqlib.NewSinglePrinterWriter(out)
+	if o.SplitExp != "" {
+		nameExp, perr := yqlib.ExpressionParser.ParseExpression(o.SplitExp)
+		if perr != nil {
+			return Outcome{Err: "parse: " + perr.Error()}
+		}
+		outF, _ := yqlib.FormatFromString(map[bool]string{true: "yaml", false: o.Out}[o.Out == ""])
+		pw = yqlib.NewMultiPrinterWriter(nameExp, outF)
+	}
+	printer := yqlib.NewPrinter(enc, pw)
 	if o.NulSep {
 		printer.SetNulSepOutput(true)
 	}
